@@ -274,6 +274,9 @@ func init() {
 		st.randCnt = 0
 		return nil
 	}
+	intrinsics[vrt+"ModelPlaintext"] = func(ex *Exec, st *State, fr *Frame, c *ssa.Call, a []Value) Value {
+		return &SliceVal{off: c64(0), len: c64(0), cap: c64(0), elem: types.Typ[types.Uint8]}
+	}
 	intrinsics[vrt+"Native"] = func(ex *Exec, st *State, fr *Frame, c *ssa.Call, a []Value) Value {
 		return mkBool(false)
 	}
@@ -310,6 +313,10 @@ func init() {
 	}
 	intrinsics[vrt+"GuardCipher"] = func(ex *Exec, st *State, fr *Frame, c *ssa.Call, a []Value) Value {
 		st.guards = append(st.guards, guard{label: ex.strArg(a[0]), cond: boolTerm(a[1])})
+		return nil
+	}
+	intrinsics[vrt+"ClearGuards"] = func(ex *Exec, st *State, fr *Frame, c *ssa.Call, a []Value) Value {
+		st.guards = nil
 		return nil
 	}
 	intrinsics[vrt+"CipherCalls"] = func(ex *Exec, st *State, fr *Frame, c *ssa.Call, a []Value) Value {
@@ -1051,6 +1058,11 @@ func (ex *Exec) extMethod(st *State, fr *Frame, call *ssa.Call, ref *ExtRef, nam
 			}
 			for i, t := range out {
 				ex.setByte(st, dst.obj, mkBin(OpAdd, dst.off, c64(i)), t)
+			}
+			if !e.enc && !ex.cfg.Concrete && len(out) > 0 {
+				// the decrypted octets are values of the uninterpreted D: report them with the model so that
+				// a native replay can construct a ciphertext that really decrypts to them
+				st.draws = append(st.draws, Draw{Kind: "cbcdec", N: len(out), ts: out})
 			}
 			st.wobj(ref.obj).ext.(*cbcExt).iv = prev
 			return nil
